@@ -124,7 +124,6 @@ func funcValueUses(p *core.Program, obj *types.Func) []ast.Node {
 // opaqueHelpers: private helpers that a rule treats as one step and therefore
 // wants to keep seeing as a call in flattened views (one line of reason each).
 var opaqueHelpers = map[string]string{
-	"pkg/gengo.writeImports": "C01.R4/C04 treat the import block as one write step of the file writer; its body is checked on its own (sorted imports)",
 	"pkg/namer.(*rawNamer).processName": "the argument rewriter is one step of the namer (C11.R6 / C03.R9 require every name to pass it; C15.R4 checks its body)",
 	"pkg/types.newPkg":       "the package-record constructor is a unit of C12/C13 (comment indexes, tables) and of the C13.R3 ordering rule (construction after registration)",
 }
@@ -160,7 +159,14 @@ func pipelineStage(p *core.Program, h *core.Func) bool {
 
 func flatten(p *core.Program, f *core.Func) *core.Func {
 	if p.Opaque == nil {
-		p.Opaque = func(h *core.Func) bool { _, ok := opaqueHelpers[h.QName()]; return ok }
+		p.Opaque = func(h *core.Func) bool {
+			if _, ok := opaqueHelpers[h.QName()]; ok {
+				return true
+			}
+			// the import printer (by role): C01.R4/C04 treat the import block as one write step of the file
+			// writer; its body is checked on its own (C03.R2: one line per registered path, sorted)
+			return h == importPrinter(p)
+		}
 		p.OpaqueGeneral = func(h *core.Func) bool { return pipelineStage(p, h) }
 	}
 	return p.Flatten(f)
